@@ -61,7 +61,13 @@ func streamWF(c *Case) *WF {
 		Outs: []OutSpec{{Name: "o0", Pattern: "{i:a}.cons.o0"}}}
 	if t.Choose(simrt.StGen, 3, 0) == 1 {
 		// the producer also has an ordinary output next to the streamed one
-		w.Nodes[prod].Outs = append(w.Nodes[prod].Outs, OutSpec{Name: "o1", Pattern: "{i:a}.prod.o1"})
+		o1 := OutSpec{Name: "o1", Pattern: "{i:a}.prod.o1"}
+		if t.Choose(simrt.StGen, 2, 0) == 1 {
+			// (written before the stream)
+			w.Nodes[prod].Outs = append([]OutSpec{o1}, w.Nodes[prod].Outs...)
+		} else {
+			w.Nodes[prod].Outs = append(w.Nodes[prod].Outs, o1)
+		}
 	}
 	if t.Choose(simrt.StGen, 3, 0) == 1 {
 		// the consumer has an ordinary second in-port next to the streamed one
